@@ -62,7 +62,7 @@ func bitfieldAtom(v ssa.Value, param ssa.Value) string {
 
 func checkC20(c *Ctx, r *Report) {
 	r.Explain = "Only the clauses of this property whose truth is in the shape of the code are decided: the BCD-plus character table; the encoding→decoder table; exact true-sets of the system-relative/device-relative predicates; the rolling-average unit multiplier table; the unsigned and two's-complement analog parsers as zero/sign extension; the Latin-1 decoder as a copy of the first c bytes; bcd.Decode as the normal form 10·b[7:4] + b[3:0]; the IPMI checksum as the negated 8-bit sum of every byte. The remaining conversions (one's complement, generic-width two's complement, packed 6-bit and BCD-plus extraction arithmetic, rolling-average byte↔duration) are value computations over finite domains; deciding them means enumerating or solving, which is outside this technique family, and they are listed as not decided."
-	r.NotDecided = []string{"complement.Ones and complement.Twos as arithmetic (value-level)", "packed 6-bit ASCII and BCD-plus nibble extraction arithmetic for every length", "rollingAvgPeriodDuration / rollingAvgPeriodByte arithmetic and round trip", "bounds of the string decoders are decided under C05, not here"}
+	r.NotDecided = []string{"complement.Ones and complement.Twos as arithmetic (value-level)", "packed 6-bit ASCII and BCD-plus nibble extraction arithmetic for every length", "rollingAvgPeriodDuration / rollingAvgPeriodByte arithmetic and round trip", "only the bounds of the string decoders (byte count covers the indices used) are decided here, not the characters they produce"}
 	r.Trusted = []string{"go/types, go/ssa (x/tools v0.29.0)", "IPMI v2.0 §43.15 (type/length byte, BCD plus), §43.1 entity instance ranges, DCMI §6.6.1 time units"}
 	ir := newInitReader(c)
 
@@ -187,6 +187,10 @@ func checkC20(c *Ctx, r *Report) {
 			}
 		}
 	}
+
+	// a necessary condition for the string decoders at every length: the byte count each computes
+	// covers every index it uses (engine E1, in the context of the record decoder that calls them)
+	checkLenflowFor(c, r, "string-decoders-in-bounds", []string{"FullSensorRecord"})
 
 	r.Rule("checksum-shape", "the IPMI checksum is the negation of the 8-bit sum of every byte of its argument", 1)
 	if f := c.Func("pkg/ipmi", "checksum"); f == nil {
